@@ -49,7 +49,7 @@ type c20User struct {
 }
 
 type c20Op struct {
-	K        string `json:"k"`              // req | stepdown | isolate | heal | reset | run
+	K        string `json:"k"`              // req | stepdown | isolate | ackblock | heal | reset | run
 	Kind     string `json:"kind,omitempty"` // exec | query | request
 	N        int    `json:"n,omitempty"`    // target node
 	Level    string `json:"lvl,omitempty"`
@@ -62,7 +62,10 @@ type c20Op struct {
 	Param    bool   `json:"param,omitempty"` // parameterised statement form
 	Lag      bool   `json:"lag,omitempty"`   // make the target (if follower) lag first
 	Async    bool   `json:"async,omitempty"`
-	Rst      int    `json:"rst,omitempty"` // reset the inter-node connection when the Rst-th response segment towards the contacted node is pending
+	ToLdr    bool   `json:"toldr,omitempty"` // send to whoever is the agreed leader (N is the fallback)
+	Slow     int    `json:"slow,omitempty"`  // timeout (ms) of this request; while it runs, the leader's inter-node responses to the contacted node are held (slow leader): both forwarding attempts time out
+	Keep     int    `json:"keep,omitempty"`  // ackblock: the follower (ordinal among followers) whose acknowledgements still reach the leader
+	Rst      int    `json:"rst,omitempty"`   // reset the inter-node connection when the Rst-th response segment towards the contacted node is pending
 	Gap      int    `json:"gap,omitempty"`
 	Ms       int    `json:"ms,omitempty"`
 }
@@ -138,13 +141,20 @@ func (sc *c20Scenario) credStore(nodeIdx int) *auth.CredentialsStore {
 
 func c20Gen(r *core.Rand, tier string) any {
 	sc := &c20Scenario{Seed: r.Uint64(), Nodes: 3}
-	if r.Bool(0.3) {
+	switch x := r.Intn(100); {
+	case x < 22:
 		sc.Nodes, sc.NonVoter = 4, true
+	case x < 47:
+		sc.Nodes = 5 // quorum 3: a leader can hold an entry that one follower has acknowledged and that is not committed
 	}
 	sc.Tick = []float64{0.02, 0.08, 0.2}[r.Intn(3)]
 	hb := time.Duration(r.Range(2, 6)) * 100 * time.Millisecond
 	sc.Knobs = node.Knobs{HeartbeatTimeout: hb, ElectionTimeout: hb, LeaderLeaseTimeout: hb / 2,
 		ApplyTimeout: time.Duration(r.Range(2, 5)) * time.Second}
+	if sc.Nodes == 5 {
+		hb = time.Duration(r.Range(4, 8)) * 100 * time.Millisecond
+		sc.Knobs.HeartbeatTimeout, sc.Knobs.ElectionTimeout, sc.Knobs.LeaderLeaseTimeout = hb, hb, hb
+	}
 	sc.Auth = r.Bool(0.65)
 	sc.NoFault = r.Bool(0.3)
 	if sc.Auth {
@@ -197,9 +207,60 @@ func c20Gen(r *core.Rand, tier string) any {
 		nops = r.Range(30, 100)
 	}
 	isolated := false
+	mkUser := func() int {
+		if sc.Auth {
+			return []int{1, 1, 2, 2}[r.Intn(4)]
+		}
+		return 0
+	}
+	// slowChain: a forwarded request that outlives its timeout on both forwarding
+	// attempts because the leader's responses are slow, followed by further,
+	// different requests through the same node: each must get its own answer.
+	slowChain := func() {
+		n := 1 + r.Intn(sc.Nodes)
+		first := c20Op{K: "req", N: n, U: mkUser(), Slow: r.Range(150, 400), RaftIdx: true}
+		// a read: the forwarding layer re-sends after a timeout (known finding for writes), reads are harmless
+		first.Kind, first.Level, first.Pat = "query", []string{"strong", "weak", "linearizable"}[r.Intn(3)], "r"
+		sc.Ops = append(sc.Ops, first)
+		for j, k := 0, r.Range(2, 4); j < k; j++ {
+			op := c20Op{K: "req", N: n, U: mkUser(), RaftIdx: true, Gap: r.Intn(3)}
+			switch r.Intn(3) {
+			case 0:
+				op.Kind, op.Pat = "exec", []string{"w", "ww"}[r.Intn(2)]
+			case 1:
+				op.Kind, op.Level, op.Pat = "query", []string{"strong", "weak"}[r.Intn(2)], []string{"r", "rr"}[r.Intn(2)]
+			default:
+				op.Kind, op.Level, op.Pat = "request", "weak", []string{"wr", "rw", "w"}[r.Intn(3)]
+			}
+			sc.Ops = append(sc.Ops, op)
+		}
+	}
+	// xferChain (5 nodes): only one follower's acknowledgements reach the leader, so
+	// a write sent to the leader is replicated but not committed; leadership is then
+	// transferred; the old leader learns the new one while the write is pending.
+	xferChain := func() {
+		sc.Ops = append(sc.Ops, c20Op{K: "ackblock", Keep: r.Intn(4)})
+		k := r.Range(1, 2)
+		for j := 0; j < k; j++ {
+			sc.Ops = append(sc.Ops, c20Op{K: "req", Kind: []string{"exec", "request"}[r.Intn(2)], N: 1 + r.Intn(sc.Nodes), ToLdr: true,
+				U: mkUser(), Pat: []string{"w", "ww"}[r.Intn(2)], RaftIdx: true, Async: true, Gap: r.Range(4, 30)})
+		}
+		sc.Ops = append(sc.Ops, c20Op{K: "stepdown", Gap: r.Intn(12)})
+		sc.Ops = append(sc.Ops, c20Op{K: "run", Ms: r.Range(50, 600)})
+		sc.Ops = append(sc.Ops, c20Op{K: "heal", Gap: r.Intn(10)})
+		sc.Ops = append(sc.Ops, c20Op{K: "run", Ms: r.Range(500, 2500)})
+	}
 	levels := []string{"", "none", "weak", "strong", "linearizable", "auto"}
 	for i := 0; i < nops; i++ {
 		x := r.Intn(100)
+		if !sc.NoFault && !isolated && r.Bool(0.05) {
+			slowChain()
+			continue
+		}
+		if !sc.NoFault && !isolated && sc.Nodes == 5 && r.Bool(0.2) {
+			xferChain()
+			continue
+		}
 		switch {
 		case x < 78:
 			op := c20Op{K: "req", N: 1 + r.Intn(sc.Nodes), Gap: r.Intn(6)}
@@ -299,6 +360,7 @@ type c20Req struct {
 	rstLeft     int
 	faulted     bool // a connection was reset while the request was in flight
 	faultNear   bool // a leadership fault was injected shortly before or during the request
+	slowed      bool // the leader's responses to the contacted node were held while this request ran
 
 	resp    *hxResp
 	done    bool
@@ -441,6 +503,25 @@ func c20Run(c *core.Ctx, raw json.RawMessage) {
 		}
 	}
 	d.After = []func(){view.observe, guardObs, rstObs}
+	// slow leader: responses of the inter-node protocol from the leader to one node
+	// are held (raft traffic and new connections are not), see op field Slow
+	type c20Hold struct {
+		ldr, tgt string
+		r        *c20Req
+	}
+	var holds []c20Hold
+	s.Hold = func(p simnet.Pending) bool {
+		if len(holds) == 0 || p.C.IsDialer() || p.C.Tag != clusterTag {
+			return false
+		}
+		for _, h := range holds {
+			if p.C.LocalHost() == h.ldr && p.C.RemoteHost() == h.tgt {
+				return true
+			}
+		}
+		return false
+	}
+	netBlocked := false
 
 	if !hxSetup(d, view, "CREATE TABLE IF NOT EXISTS t (id INTEGER PRIMARY KEY AUTOINCREMENT, tag TEXT NOT NULL)",
 		"INSERT OR IGNORE INTO t(id, tag) VALUES(1, 'init')") {
@@ -490,16 +571,21 @@ func c20Run(c *core.Ctx, raw json.RawMessage) {
 	}
 
 	start := func(op c20Op) *c20Req {
+		synctest.Wait()
+		view.observe()
+		if op.ToLdr {
+			if l := view.agreedLeader(); l != nil {
+				op.N = l.Idx
+			}
+		}
 		if op.N < 1 || op.N > sc.Nodes || !s.Nodes[op.N].Up || op.Pat == "" {
 			return nil
 		}
-		synctest.Wait()
-		view.observe()
 		nextID++
 		r := &c20Req{id: nextID, op: op, tgt: op.N, uidx: op.U, outcome: "pending", lastIDs: map[string]int64{}, rstLeft: op.Rst}
 		tn := s.Nodes[op.N]
 		// lag: only when nothing else is in flight and leadership is agreed
-		if op.Lag && inflight == 0 {
+		if op.Lag && inflight == 0 && !netBlocked && len(holds) == 0 {
 			if l := view.agreedLeader(); l != nil && l.Idx != op.N {
 				lagN++
 				tag := fmt.Sprintf("lag%d", lagN)
@@ -532,7 +618,25 @@ func c20Run(c *core.Ctx, raw json.RawMessage) {
 			r.c0, _ = l.Store.CommitIndex()
 		}
 		r.invokeEpoch = view.Epoch
-		r.faultNear = !lastFault.IsZero() && time.Since(lastFault) < grace
+		r.faultNear = netBlocked || (!lastFault.IsZero() && time.Since(lastFault) < grace)
+		for _, h := range holds {
+			if h.tgt == tn.HostName {
+				r.faulted, r.slowed = true, true
+			}
+		}
+		if op.Slow > 0 {
+			if l := view.agreedLeader(); l != nil && l.Idx != op.N {
+				holds = append(holds, c20Hold{l.HostName, tn.HostName, r})
+				r.faulted, r.slowed = true, true
+				for _, o := range reqs {
+					if !o.done && o.tgt == op.N {
+						o.faulted, o.slowed = true, true
+					}
+				}
+				c.Fault("slow-leader-responses")
+				c.Log.Add("%d fault responses n%d>n%d held while req%d (timeout %dms) runs", s.StepN, l.Idx, op.N, r.id, op.Slow)
+			}
+		}
 		// statements
 		var list []any
 		for i := 0; i < len(op.Pat); i++ {
@@ -561,6 +665,9 @@ func c20Run(c *core.Ctx, raw json.RawMessage) {
 		}
 		// request line
 		kv := []string{"timeout", "4s"}
+		if op.Slow > 0 {
+			kv[1] = fmt.Sprintf("%dms", op.Slow)
+		}
 		if op.Redirect {
 			kv = append(kv, "redirect", "")
 		}
@@ -628,6 +735,13 @@ func c20Run(c *core.Ctx, raw json.RawMessage) {
 			r.done = true
 			inflight--
 			r.retEpoch = view.Epoch
+			for i, h := range holds {
+				if h.r == r {
+					holds = append(holds[:i], holds[i+1:]...)
+					c.Log.Add("%d responses to n%d released", s.StepN, r.tgt)
+					break
+				}
+			}
 			if r.ldrAtInvoke != 0 && s.Nodes[r.ldrAtInvoke].Up {
 				r.c1, _ = s.Nodes[r.ldrAtInvoke].Store.CommitIndex()
 			}
@@ -836,6 +950,7 @@ func c20Run(c *core.Ctx, raw json.RawMessage) {
 					}
 				}
 				s.Net.Heal()
+				netBlocked = true
 				s.Net.Partition([]string{l.HostName}, rest)
 				c.Fault("isolate-leader")
 				noteFault()
@@ -844,8 +959,31 @@ func c20Run(c *core.Ctx, raw json.RawMessage) {
 				}
 				c.Log.Add("%d fault isolate n%d", s.StepN, l.Idx)
 			}
+		case "ackblock":
+			// acknowledgements (everything sent to the leader) of all followers but one are held
+			if l := view.agreedLeader(); l != nil && !netBlocked {
+				var fol []*node.Node
+				for i := 1; i <= sc.Nodes; i++ {
+					if i != l.Idx && s.Nodes[i].Up && !(sc.NonVoter && i == sc.Nodes) {
+						fol = append(fol, s.Nodes[i])
+					}
+				}
+				if len(fol) > 1 {
+					keep := fol[op.Keep%len(fol)]
+					for _, f := range fol {
+						if f != keep {
+							s.Net.Block(f.HostName, l.HostName)
+						}
+					}
+					netBlocked = true
+					c.Fault("ack-block")
+					noteFault()
+					c.Log.Add("%d fault only n%d's messages reach leader n%d", s.StepN, keep.Idx, l.Idx)
+				}
+			}
 		case "heal":
 			s.Net.Heal()
+			netBlocked = false
 			c.Fault("heal")
 			noteFault()
 			c.Log.Add("%d fault heal", s.StepN)
@@ -925,7 +1063,9 @@ func c20Run(c *core.Ctx, raw json.RawMessage) {
 			n := counts[st.tag]
 			if n > 1 {
 				cls, why := "duplicate-effect", ""
-				if r.faulted {
+				if r.slowed {
+					cls, why = "duplicate-after-response-timeout", " (the leader's response was held beyond the request's timeout while it was in flight)"
+				} else if r.faulted {
 					cls, why = "duplicate-after-response-reset", " (the inter-node connection carrying its response was reset while it was in flight)"
 				}
 				c.Violate(cls, "req%d (%s to n%d via %s, outcome %s, http %d)%s: statement tag %s applied %d times", r.id, r.op.Kind, r.tgt, r.path, r.outcome, r.resp.Code, why, st.tag, n)
